@@ -21,7 +21,7 @@ import ast
 
 from ..absint import EventAnalysis, run_events
 from ..ctor import init_attrs
-from ..facts import atoms, call_is, meth_is, strip
+from ..facts import atoms, call_is, cases, meth_is, oriented, strip
 from ..model import AnalysisError, norm
 from ..terms import is_const, show, subterms, summarize
 
@@ -216,13 +216,20 @@ def _run(ctx):
         ctx.ob("C20.b", fn.qual, exists, "conversion is reached only when getattr(AirConditioner, name) is a property", func=fn.qual, file=file, node=conv_stmt,
                detail={"facts": [show(f)[:100] for f in facts]}, fail="unknown setting names are not rejected before conversion")
         # writable: NOT(name != KEY and fset is None)  <=>  name == KEY or fset is not None
-        wr = False
-        for c, truth in conv_pc:
-            if not truth and c[0] == "bool" and c[1] == "and" and len(c[2]) == 2:
-                a, b = c[2]
-                has_key = any(x[0] == "cmp" and x[1] == "!=" and strip(x[2]) == strip(NAME) and x[3] == ("const", "display_on") for x in (a, b))
-                has_fset = any(x[0] == "cmp" and x[1] == "is" and x[3] == ("const", None) and strip(x[2]) == ("attr", PROP, "fset") for x in (a, b)) if PROP else False
-                wr = wr or (has_key and has_fset)
+        # in whatever form the test is written: in every case of the path condition one of the two atoms holds, and each is the reason in some case
+        def key_atom(x):
+            x = oriented(x)
+            return x[0] == "cmp" and x[1] == "==" and strip(x[2]) == strip(NAME) and strip(x[3]) == ("const", "display_on")
+
+        def fset_atom(x):
+            return PROP is not None and x[0] == "cmp" and x[1] in ("is not", "!=") and strip(x[3]) == ("const", None) and strip(x[2]) == ("attr", PROP, "fset")
+        try:
+            cs = cases(conv_pc)
+        except ValueError:
+            cs = []
+        by_key = [c_ for c_ in cs if any(key_atom(x) for x in c_)]
+        by_fset = [c_ for c_ in cs if any(fset_atom(x) for x in c_)]
+        wr = bool(cs) and bool(by_key) and bool(by_fset) and all(any(key_atom(x) or fset_atom(x) for x in c_) for c_ in cs)
         ctx.ob("C20.b", fn.qual, wr, "read-only settings are rejected (no setter), except the display key which is handled by toggling", func=fn.qual, file=file,
                node=conv_stmt, fail="read-only settings are not rejected before conversion (or the display exception changed)")
     # ---------------------------------------------------------------- C20.c inventory
